@@ -48,7 +48,7 @@ theorem body_clean_by_distance_documented : cleanByDistanceBody = ("53d5ed6a27a1
 theorem body_get_motl_subset_documented : getMotlSubsetBody = ("1c0cb3fa2e860f0e", 12) := by decide
 theorem body_get_coordinates_documented : getCoordinatesBody = ("1c17071c5bf60581", 6) := by decide
 theorem body_point_pairwise_dist_documented : pointPairwiseDistBody = ("36011e2af37cb2b5", 8) := by decide
-theorem body_scores_extract_particles_documented : scoresExtractParticlesBody = ("9e1eb5ce3d162174", 92) := by decide
+theorem body_scores_extract_particles_documented : scoresExtractParticlesBody = ("8ac25e7ad974b1c1", 92) := by decide
 theorem body_rot_angles_load_documented : rotAnglesLoadBody = ("1499f2ae2f25072c", 20) := by decide
 /-- helpers every call runs through: `cryomap.read` (both maps), `Motl.__init__` / `check_df_correct_format` (the list
 handed in), `Motl.fill` / `create_empty_motl_df` (the list handed out), `Motl.get_feature` (the group values) -/
@@ -63,7 +63,7 @@ theorem body_create_empty_motl_df_documented : createEmptyMotlDfBody = ("37eec39
 theorem bodies_documented :
     cleanByDistanceBody = ("53d5ed6a27a1f97f", 32) ∧ getMotlSubsetBody = ("1c0cb3fa2e860f0e", 12) ∧
     getCoordinatesBody = ("1c17071c5bf60581", 6) ∧ pointPairwiseDistBody = ("36011e2af37cb2b5", 8) ∧
-    scoresExtractParticlesBody = ("9e1eb5ce3d162174", 92) ∧ rotAnglesLoadBody = ("1499f2ae2f25072c", 20) :=
+    scoresExtractParticlesBody = ("8ac25e7ad974b1c1", 92) ∧ rotAnglesLoadBody = ("1499f2ae2f25072c", 20) :=
   ⟨body_clean_by_distance_documented, body_get_motl_subset_documented, body_get_coordinates_documented,
     body_point_pairwise_dist_documented, body_scores_extract_particles_documented, body_rot_angles_load_documented⟩
 
@@ -82,6 +82,13 @@ theorem position_documented :
 /-- `scores_map > threshold`; ball radius is `particle_diameter`; `<= score`; best first -/
 theorem peak_operators_documented :
     peakThrCmp = .gt ∧ peakBallRadius = "particle_diameter" ∧ peakScoreCmp = .le ∧ peakSortDesc = true := by decide
+
+/-- the threshold reaches the comparison as `np.float64(threshold)`: a float32 score map (every MRC file) is then
+compared in double precision, which is exact for float32 and float64 scores alike — the premise under which the
+model's exact comparison `thr < score` is what the code decides. (NumPy ≥ 2 rounds a Python-float threshold to
+float32 next to a float32 array: a voxel at `np.float32(0.1)` was lost for the threshold `0.1`; defect found by
+audit 3, repaired by C07-fix-1.) -/
+theorem peak_threshold_double_documented : peakThrInDouble = true := by decide
 
 /-- `x,y,z = rpos[:, 0..2] + 1`; `ang_idx = angles_map[rpos] - angles_numbering`; phi, theta, psi are
 columns 0, 1, 2 of the loaded list and are filled into the motl under their own names, like the score -/
@@ -504,6 +511,31 @@ theorem checkIndependentCore_sound (rel : Item α → Item α → Bool) (out : L
     · intro a ha; cases ha
     · intro a ha; cases ha
     · intro r hr; cases hr
+
+/-- **a result the order-free checker accepts passes in every group on its own** (for any closeness relation): the
+`independent_core` answer of the driver can only be false when `ok_core` is false, so the judge needs no separate
+`groups-affect-each-other` verdict -/
+theorem checkIndependentCore_of_core (rel : Item α → Item α → Bool) (out : List (Item α))
+    (h : checkCleanCoreR rel kg items out = true) : checkIndependentCore rel kg items out = true := by
+  obtain ⟨h1, hn, h2, h3⟩ := (checkCleanCoreR_iff kg items rel out).1 h
+  unfold checkIndependentCore checkGroupsCore
+  simp only [Bool.and_eq_true, List.all_eq_true, List.contains_iff_mem, List.mem_map, forall_exists_index, and_imp,
+    forall_apply_eq_imp_iff₂]
+  refine ⟨h1, ?_⟩
+  intro k _
+  rw [checkCleanCoreR_iff]
+  refine ⟨?_, ?_, ?_, ?_⟩
+  · intro a ha
+    rw [mem_restrict] at ha ⊢
+    exact ⟨h1 a ha.1, ha.2⟩
+  · exact List.Nodup.sublist (List.filter_sublist.map _) hn
+  · intro a ha b hb
+    exact h2 a ((mem_restrict k out a).1 ha).1 b ((mem_restrict k out b).1 hb).1
+  · intro r hr hout
+    rw [mem_restrict] at hr
+    have hro : r ∉ out := fun hh => hout ((mem_restrict k out r).2 ⟨hh, hr.2⟩)
+    obtain ⟨c, hc, hg, hcl, hb⟩ := h3 r hr.1 hro
+    exact ⟨c, (mem_restrict k out c).2 ⟨hc, hg.trans hr.2⟩, hg, hcl, hb⟩
 
 /-- the per-group verdict with the in-order test implies the order-free one -/
 theorem checkIndependent_core (rel : Item α → Item α → Bool) (out : List (Item α))
